@@ -238,31 +238,66 @@ BasicTypeKind TypeChecker::performSignBasedIntegerConversion(
     }
 }
 
+namespace
+{
+// The rank of the corresponding real type of a floating type (0 for an integer type).
+int floatingConversionRank(BasicTypeKind basicTyK)
+{
+    switch (basicTyK) {
+        case BasicTypeKind::Float:
+        case BasicTypeKind::FloatComplex:
+            return 1;
+        case BasicTypeKind::Double:
+        case BasicTypeKind::DoubleComplex:
+            return 2;
+        case BasicTypeKind::LongDouble:
+        case BasicTypeKind::LongDoubleComplex:
+            return 3;
+        default:
+            return 0;
+    }
+}
+
+bool isComplexTypeKind(BasicTypeKind basicTyK)
+{
+    switch (basicTyK) {
+        case BasicTypeKind::FloatComplex:
+        case BasicTypeKind::DoubleComplex:
+        case BasicTypeKind::LongDoubleComplex:
+            return true;
+        default:
+            return false;
+    }
+}
+} // anonymous
+
 BasicTypeKind TypeChecker::performArithmeticConversions(
         BasicTypeKind leftTyK,
         BasicTypeKind rightTyK)
 {
-    switch (leftTyK) {
-        case BasicTypeKind::Float:
-        case BasicTypeKind::Double:
-        case BasicTypeKind::LongDouble:
-        case BasicTypeKind::FloatComplex:
-        case BasicTypeKind::DoubleComplex:
-        case BasicTypeKind::LongDoubleComplex:
-            return leftTyK;
-        default:
-            switch (rightTyK) {
-                case BasicTypeKind::Float:
-                case BasicTypeKind::Double:
-                case BasicTypeKind::LongDouble:
-                case BasicTypeKind::FloatComplex:
-                case BasicTypeKind::DoubleComplex:
-                case BasicTypeKind::LongDoubleComplex:
-                    return rightTyK;
-                default:
-                    break;
-            }
-            break;
+    // If either operand has a floating type, the common real type is the
+    // wider of the corresponding real types, and the result is complex if
+    // either operand is (6.3.1.8-1).
+    int leftRank = floatingConversionRank(leftTyK);
+    int rightRank = floatingConversionRank(rightTyK);
+    if (leftRank > 0 || rightRank > 0) {
+        int rank = leftRank;
+        if (rank < rightRank)
+            rank = rightRank;
+        bool isComplex = isComplexTypeKind(leftTyK) || isComplexTypeKind(rightTyK);
+        if (rank == 1) {
+            if (isComplex)
+                return BasicTypeKind::FloatComplex;
+            return BasicTypeKind::Float;
+        }
+        if (rank == 2) {
+            if (isComplex)
+                return BasicTypeKind::DoubleComplex;
+            return BasicTypeKind::Double;
+        }
+        if (isComplex)
+            return BasicTypeKind::LongDoubleComplex;
+        return BasicTypeKind::LongDouble;
     }
 
     leftTyK = performIntegerPromotion(leftTyK);
